@@ -344,6 +344,7 @@ class World:
         self.by_full = {}
         self.neverret = None
         self._ecfg = {}
+        self._summ = {}
 
     def add(self, facts):
         for f in facts.functions:
@@ -385,7 +386,8 @@ class World:
     def compute_modsets(self, cls_re):
         """per member function of the classes matching cls_re: kill tokens for the fields of its own object
         (flow-insensitive, transitive over calls on this; unknown callee on this -> '@*')"""
-        fns = [f for f in self.fns.values() if re.search(cls_re, f.cls or "") and f.cfg is not None]
+        fns = [f for f in self.fns.values() if f.cfg is not None and
+               ((f.cls in cls_re) if isinstance(cls_re, (set, frozenset)) else re.search(cls_re, f.cls or ""))]
         for f in fns:
             MODSETS.setdefault(f.full, set())
         changed = True
@@ -403,11 +405,42 @@ class World:
                     MODSETS[f.full] = acc
                     changed = True
         self._ecfg = {}
+        self._summ = {}
+
+    def summary(self, call, caller):
+        """facts about fields of the object that hold whenever the member function called on `this` returns normally
+        (a private helper that rejects by throwing establishes the negation of its rejection condition)"""
+        g = self.resolve(call, caller)
+        if g is None or g.cfg is None or g.cls != caller.cls:
+            return set()
+        key = id(g)
+        if key in self._summ:
+            return self._summ[key]
+        self._summ[key] = set()          # recursion guard
+        e = self.ecfg(g)
+        out = None
+        for b in e.normal_exits():
+            fs = e.facts_at_end(b, e.exit) or set()
+            fs = {f for f in fs if f[4] and all(v.startswith("@") for v in f[4])}
+            out = fs if out is None else (out & fs)
+        self._summ[key] = out or set()
+        return self._summ[key]
 
     def ecfg(self, fn):
         if id(fn) not in self._ecfg:
             self._ecfg[id(fn)] = ECFG(fn, self.neverret or set())
         return self._ecfg[id(fn)]
+
+
+WORLD = [None]     # the World of the current run (callee summaries for the must-facts transfer)
+
+
+def rejecting_return(fn, n):
+    """`return false;` in a content() callback is a documented rejection: the scanner answers it with Xml::GrammarError"""
+    if fn.name != "content" or n.get("k") != "Return" or not fn.d.get("virtual"):
+        return False
+    e = strip(n.get("e"))
+    return e is not None and e.get("k") == "Bool" and not e["v"]
 
 
 class ECFG:
@@ -427,7 +460,8 @@ class ECFG:
                 n = fn.by_id(e)
                 if n is None:
                     continue
-                if n.get("k") == "Throw" or n.get("noreturn") or (is_call(n) and (n.get("cfull") in neverret or n.get("callee") in neverret)):
+                if n.get("k") == "Throw" or n.get("noreturn") or (is_call(n) and (n.get("cfull") in neverret or n.get("callee") in neverret)) \
+                   or rejecting_return(fn, n):
                     el = el[:pos + 1]
                     thr = True
                     break
@@ -489,9 +523,41 @@ class ECFG:
         if t == f:
             return []
         if s == t:
-            return atom_facts(leaf, True)
+            return atom_facts(leaf, True) + self._loop_ne_facts(b, leaf)
         if s == f:
             return atom_facts(leaf, False)
+        return []
+
+    def _loop_ne_facts(self, b, leaf):
+        """`for(i = 0; i != n; ++i)` with a non-negative n: inside the body i < n (i counts up from 0 in steps of one and
+        the loop is left when it reaches n)"""
+        blk = self.cfg.blocks[b]
+        if blk.get("term") != "ForStmt" or blk.get("term_id") is None:
+            return []
+        loop = self.fn.by_id(blk["term_id"])
+        c = cmp_parts(leaf) if leaf is not None and leaf.get("k") in ("Bin", "OpCall") else None
+        if loop is None or loop.get("k") != "For" or c is None or c[0] != "!=":
+            return []
+        init, inc = loop.get("init"), strip(loop.get("inc"))
+        if init is None or init.get("k") != "Decl" or len(init.get("vars", [])) != 1 or inc is None:
+            return []
+        v = init["vars"][0]
+        i0 = strip(v.get("init"))
+        if i0 is None or i0.get("k") != "Int" or i0["v"] != "0":
+            return []
+        if not ((inc.get("k") == "Un" and inc.get("op") == "++" and strip(inc["e"]).get("k") == "Ref" and strip(inc["e"])["n"] == v["n"])):
+            return []
+        for x, y in ((c[1], c[2]), (c[2], c[1])):
+            sx = strip(x)
+            if sx.get("k") == "Ref" and sx.get("n") == v["n"] and v["n"] not in vars_of(y):
+                ty = self.fn.ntype(strip(y)) or ""
+                sy = strip(y)
+                nonneg = "unsigned" in ty or "size_t" in ty or "Index" in ty or (sy.get("k") == "Int" and int(sy["v"]) >= 0) \
+                    or (sy.get("k") == "MCall" and sy.get("n") == "size")
+                body_mod = any(r.get("k") in ("Assign", "Un") and root_var(r.get("lhs") or r.get("e")) == v["n"] and r is not inc
+                               and not (r.get("k") == "Un" and r.get("op") not in ("++", "--")) for r in walk(loop.get("body")))
+                if nonneg and not body_mod:
+                    return [("<", norm(x), norm(y), True, frozenset(vars_of(x) | vars_of(y)), shape_vars(y))]
         return []
 
     # --- kill / gen ---------------------------------------------------------------------------
@@ -559,6 +625,8 @@ class ECFG:
                      and not (allf and any(v.startswith("@") for v in f[4]))}
         if n.get("k") == "Call" and n.get("callee") == "FEAT::assertion" and n.get("a"):
             facts = set(facts) | set(atom_facts(n["a"][0], True))
+        if n.get("k") == "MCall" and (n.get("obj") is None or strip(n["obj"]).get("k") == "This") and WORLD[0] is not None:
+            facts = set(facts) | WORLD[0].summary(n, self.fn)
         if n.get("k") == "MCall" and n.get("n") == "resize" and (n.get("ccls") or "").startswith("std::") and n.get("a"):
             o = strip(n.get("obj"))
             if o is not None and (o.get("k") == "Ref" or is_this_field(o)):
@@ -682,6 +750,8 @@ class ECFG:
                 if x is not None and x.get("k") in ("TempObj", "Construct"):
                     return x.get("ccls") or ""
                 return "?"
+            if rejecting_return(self.fn, n):
+                return "FEAT::Xml::GrammarError"
             if is_call(n):
                 return "call:" + (n.get("cfull") or n.get("callee") or "?")
         return ""
@@ -731,6 +801,71 @@ def call_branch(e, call):
                     if fa[0] == "b" and fa[1] == v and w is not None and (b == w[0] or w[0] in e.cfg.dom.get(b, ())):
                         return (b, t, fl) if fa[3] else (b, fl, t)
     return None
+
+
+def undecided(ck, rule, key, why):
+    """the instance exists but the code uses a construct the rule does not model: exit 2, never a violation"""
+    ck.incomplete(rule, "%s: %s" % (key, why))
+    ck.rule_counts[rule] = ck.rule_counts.get(rule, 0) + 1
+
+
+MODELLED_CALLEES = re.compile(r"^(std::|FEAT::String::|FEAT::assertion$|FEAT::stringify|FEAT::Xml::\w+Error::|FEAT::Math::)")
+
+
+def suspects(W, e, upto, names, anywhere=False):
+    """calls executed before `upto` on some path (all calls of the function if anywhere) through which a check the rule
+    misses could be performed in a way it does not model: member functions of the own class without analysed body, any
+    non-library callee that receives `this` or one of the variables `names`, invocations of local lambdas.  Own member
+    functions with a body are modelled (their normal-return facts about fields are propagated), unless they receive one
+    of the (local) variables."""
+    fn = e.fn
+    names = set(names or ())
+    blocks = None
+    w = e.where(upto) if upto is not None and not anywhere else None
+    if w is not None:
+        blocks, st = set(), [w[0]]
+        while st:
+            b = st.pop()
+            if b in blocks:
+                continue
+            blocks.add(b)
+            st.extend(e.pred.get(b, []))
+    out = []
+    for b, el in e.el.items():
+        if blocks is not None and b not in blocks:
+            continue
+        for sid in el:
+            if w is not None and b == w[0] and sid == w[1]:
+                break
+            n = fn.by_id(sid)
+            if n is None or n is upto:
+                continue
+            k = n.get("k")
+            if k == "OpCall" and n.get("op") == "()" and n.get("a") and strip(n["a"][0]).get("k") == "Ref" and strip(n["a"][0]).get("dk") == "local" \
+               and "lambda" in (fn.ntype(strip(n["a"][0])) or ""):
+                out.append(render(n)[:60])
+                continue
+            if k not in ("Call", "MCall"):
+                continue
+            cal = n.get("callee") or ""
+            if MODELLED_CALLEES.match(cal) or (n.get("ccls") or "").startswith("std::"):
+                continue
+            args = list(n.get("a", []))
+            mentions = any((vars_of(a) & names) for a in args) or any(strip(a) is not None and strip(a).get("k") == "This" for a in args)
+            own = k == "MCall" and (n.get("obj") is None or strip(n["obj"]).get("k") == "This")
+            if own:
+                g = W.resolve(n, fn)
+                if g is None or mentions:
+                    out.append(render(n)[:60])
+                continue
+            if k == "MCall" and ACCESSOR_RE.match(n.get("n") or "") and not mentions:
+                continue
+            recv_names = vars_of(n.get("obj")) & names if k == "MCall" else set()
+            if mentions or (recv_names and not ACCESSOR_RE.match(n.get("n") or "")):
+                if upto is not None and any(x is upto for x in walk(n)):
+                    continue
+                out.append(render(n)[:60])
+    return sorted(set(out))
 
 
 def find_fact(facts, kind, A=None, B=None, truth=None):
@@ -920,11 +1055,33 @@ def declare_rules(ck):
             "adds a section (input class: any property map with a sub-section)", 4)
 
 
+def guard_documented(W, e, kind, A, B, truth, depth=0):
+    """is the fact established by a branch whose other edge ends in a documented Xml::*Error, in this function or in a member
+    helper whose normal return establishes it?  None if no establishing branch is found at all (e.g. an assertion)"""
+    orig = guard_origin(e, kind, A, B, truth)
+    if orig:
+        return any(e.only_throws_from(o) and documented(e.throw_classes_from(o)) for _, o in orig)
+    if depth > 3:
+        return None
+    res = None
+    for n in e.fn.nodes():
+        if n.get("k") == "MCall" and (n.get("obj") is None or strip(n["obj"]).get("k") == "This"):
+            if any((f[0], f[1], f[2], f[3]) == (kind, A, B, truth) for f in W.summary(n, e.fn)):
+                g = W.resolve(n, e.fn)
+                r = guard_documented(W, W.ecfg(g), kind, A, B, truth, depth + 1) if g is not None else None
+                if r:
+                    return True
+                if r is False:
+                    res = False
+    return res
+
+
 def run(tier):
     ck = Check("C11", tier)
     declare_rules(ck)
     REG.clear()
     MODSETS.clear()
+    WORLD[0] = None
     W = World()
 
     bases = []
@@ -953,10 +1110,13 @@ def run(tier):
     for fb in bases + [sfacts, gfacts, pfacts]:
         W.add(fb)
     W.compute_neverret()
-    W.compute_modsets(r"^FEAT::Xml::Scanner$")
+    pcs = parser_classes(facts)
+    PARSER_CLS.clear()
+    PARSER_CLS.update(pc.cls for pc in pcs)
+    WORLD[0] = W
+    W.compute_modsets(frozenset({"FEAT::Xml::Scanner", "FEAT::Geometry::MeshFileReader"} | {pc.cls for pc in pcs}))
 
     rule_scanner(ck, W, sfacts)
-    pcs = parser_classes(facts)
     limits = rule_counter(ck, W, pcs)
     rule_counter_extent(ck, W, pcs, facts, limits)
     rule_parse_used(ck, W, facts)
@@ -1018,6 +1178,7 @@ def rule_counter(ck, W, pcs):
             e = W.ecfg(content)
             limits = set()
             probs = []
+            unk, cunk = [], []
             # uses: the increment(s) and every subscript/call argument that mentions the counter
             uses = [n for _, n in ctrs]
             for n in content.nodes():
@@ -1033,52 +1194,67 @@ def rule_counter(ck, W, pcs):
                     continue    # unreachable
                 g = find_fact(fs, "<", A=C, truth=True)
                 if not g:
-                    probs.append("line %s: `%s` is reached without a dominating `%s >= <limit>` rejection" % (u.get("l"), render(u)[:60], C))
+                    sus = suspects(W, e, u, {"@" + C})
+                    if sus:
+                        unk.append("line %s: no `%s >= <limit>` rejection seen before `%s`, but %s may perform it" % (u.get("l"), C, render(u)[:40], sus))
+                    else:
+                        probs.append("line %s: `%s` is reached without a dominating `%s >= <limit>` rejection" % (u.get("l"), render(u)[:60], C))
                     continue
                 for fa in g:
                     limits.add(fa[2])
                     orig = guard_origin(e, "<", C, fa[2], True)
-                    ok = any(e.only_throws_from(o) and documented(e.throw_classes_from(o)) for _, o in orig)
+                    ok = guard_documented(W, e, "<", C, fa[2], True)
                     if not ok:
                         probs.append("line %s: the `%s >= %s` edge does not end in a documented Xml::*Error throw (%s)" % (
                             u.get("l"), C, fa[2], ";".join(",".join(e.throw_classes_from(o)) or "falls through" for _, o in orig) or "established by an assertion"))
             if len(limits) > 1:
                 probs.append("counter %s is guarded against different limits %s" % (C, sorted(limits)))
-            results_g.append((pc, content, probs, sorted(limits)))
+            results_g.append((pc, content, probs, sorted(limits), unk))
             limits_by_cls[pc.cls] = sorted(limits)
             # close(): normal exits require counter >= limit
             ec = W.ecfg(close)
             cprobs = []
             exits = ec.normal_exits()
             if not exits:
-                cprobs.append("close() has no normal exit")
+                cunk.append("close() has no normal exit")
             for b in exits:
                 fs = ec.facts_at_end(b, ec.exit) or set()
                 g = find_fact(fs, "<", A=C, truth=False)
                 if not g:
-                    cprobs.append("a normal exit (block %d, lines %s) is reachable with %s < limit: fewer items than declared are accepted" % (
-                        b, ec.cfg.block_lines(ec.cfg.path_to(b) or [])[-3:], C))
+                    sus = suspects(W, ec, None, {"@" + C}, anywhere=True)
+                    if sus:
+                        cunk.append("no `%s < <limit>` rejection seen in close(), but %s may perform it" % (C, sus))
+                    else:
+                        cprobs.append("a normal exit (block %d, lines %s) is reachable with %s < limit: fewer items than declared are accepted" % (
+                            b, ec.cfg.block_lines(ec.cfg.path_to(b) or [])[-3:], C))
                     continue
                 lim2 = {fa[2] for fa in g}
                 if limits and not (lim2 & limits):
                     cprobs.append("close() requires %s >= %s but content() guards with %s" % (C, sorted(lim2), sorted(limits)))
                 for fa in g:
-                    orig = guard_origin(ec, "<", C, fa[2], False)
-                    if orig and not any(ec.only_throws_from(o) and documented(ec.throw_classes_from(o)) for _, o in orig):
+                    if guard_documented(W, ec, "<", C, fa[2], False) is False:
                         cprobs.append("the `%s < %s` edge of close() does not end in a documented Xml::*Error throw" % (C, fa[2]))
-            results_t.append((pc, close, cprobs))
+            results_t.append((pc, close, cprobs, cunk))
         if not results_g:
             continue
-        allp = [p for _, _, ps, _ in results_g for p in ps]
+        allp = [p for r in results_g for p in r[2]]
+        allu = [p for r in results_g for p in r[4]]
         f0 = results_g[0][1]
-        ck.ob("E7.counter-guard", "%s::content" % name, not allp,
-              "; ".join(sorted(set(allp))) if allp else "counter guarded by limit %s in %d instantiation(s)" % (results_g[0][3], len(results_g)),
-              f0.file, f0.line, sample={"class": results_g[0][0].cls, "limit": results_g[0][3]})
-        allc = [p for _, _, ps in results_t for p in ps]
+        if allu and not allp:
+            undecided(ck, "E7.counter-guard", "%s::content" % name, "; ".join(sorted(set(allu))))
+        else:
+            ck.ob("E7.counter-guard", "%s::content" % name, not allp,
+                  "; ".join(sorted(set(allp))) if allp else "counter guarded by limit %s in %d instantiation(s)" % (results_g[0][3], len(results_g)),
+                  f0.file, f0.line, sample={"class": results_g[0][0].cls, "limit": results_g[0][3]})
+        allc = [p for r in results_t for p in r[2]]
+        allcu = [p for r in results_t for p in r[3]]
         c0 = results_t[0][1]
-        ck.ob("E7.truncation", "%s::close" % name, not allc,
-              "; ".join(sorted(set(allc))) if allc else "all normal exits require counter >= limit (%d instantiation(s))" % len(results_t),
-              c0.file, c0.line)
+        if allcu and not allc:
+            undecided(ck, "E7.truncation", "%s::close" % name, "; ".join(sorted(set(allcu))))
+        else:
+            ck.ob("E7.truncation", "%s::close" % name, not allc,
+                  "; ".join(sorted(set(allc))) if allc else "all normal exits require counter >= limit (%d instantiation(s))" % len(results_t),
+                  c0.file, c0.line)
     return limits_by_cls
 
 
@@ -1147,24 +1323,44 @@ def rule_parse_used(ck, W, facts, file_re=None):
                                      or (p.get("k") == "Bin" and p.get("op") in ("||", "&&"))):
                 x, p = p, par.get(id(p))
             prob = None
+            unkp = None
             if p is not None and p.get("k") == "Return":
                 prob = None   # handed to the caller
             else:
                 cb = call_branch(e, n)
                 hit = (cb[0], cb[2]) if cb else None
                 if hit is None:
-                    prob = "the result of `%s` is discarded: a token that does not parse leaves the default value in place and the input is accepted" % render(n)[:80]
+                    if p is None or p.get("k") in ("Block", "If", "For", "While", "Do", "ForRange", "Case", "Default", "Switch"):
+                        prob = "the result of `%s` is discarded: a token that does not parse leaves the default value in place and the input is accepted" % render(n)[:80]
+                    else:
+                        unkp = "the result of `%s` flows into `%s`, which is not followed" % (render(n)[:50], render(p)[:50])
                 else:
                     b, fail = hit
                     if not e.only_throws_from(fail):
-                        prob = "a normal exit is reachable after `%s` failed" % render(n)[:80]
+                        # definite only if the failure path reaches a normal exit without recording the failure anywhere
+                        region = e.reachable(fail)
+                        side = [x for bb in region for x in (e.fn.by_id(i) for i in e.el[bb]) if x is not None and
+                                (x.get("k") == "Assign" or (x.get("k") == "Return" and strip(x.get("e")) is not None and strip(x["e"]).get("k") != "Bool")
+                                 or (x.get("k") in ("Call", "MCall") and not MODELLED_CALLEES.match(x.get("callee") or "") and not (x.get("ccls") or "").startswith("std::")
+                                     and not ACCESSOR_RE.match(x.get("n") or "x")))]
+                        straight = e.exit in e.succ.get(fail, []) or not side
+                        if straight and not any(x.get("k") == "Assign" for x in side):
+                            prob = "a normal exit is reachable after `%s` failed" % render(n)[:80]
+                        else:
+                            unkp = "after `%s` failed the function continues through `%s`; whether the failure is rejected later is not followed" % (
+                                render(n)[:50], render(side[0])[:40] if side else "?")
                     elif f.name in PARSER_METHODS and not documented(e.throw_classes_from(fail)):
                         prob = "failure of `%s` raises %s, not a documented Xml::*Error" % (render(n)[:60], e.throw_classes_from(fail))
-            rec = seen.setdefault(key, {"probs": [], "fn": f, "line": n.get("l"), "n": 0})
+            rec = seen.setdefault(key, {"probs": [], "unk": [], "fn": f, "line": n.get("l"), "n": 0})
             rec["n"] += 1
             if prob:
                 rec["probs"].append(prob)
+            if unkp:
+                rec["unk"].append(unkp)
     for key, rec in sorted(seen.items()):
+        if rec["unk"] and not rec["probs"]:
+            undecided(ck, "E7.parse-result-used", key, "; ".join(sorted(set(rec["unk"]))))
+            continue
         ck.ob("E7.parse-result-used", key, not rec["probs"],
               "; ".join(sorted(set(rec["probs"]))) if rec["probs"] else "tested, failure edge throws (%d instantiation(s))" % rec["n"],
               rec["fn"].file, rec["line"])
@@ -1356,11 +1552,15 @@ def fmt_witness(w):
 SPLITS = ("FEAT::String::split_by_whitespaces", "FEAT::String::split_by_string", "FEAT::String::split_by_charset")
 
 
+PARSER_CLS = set()
+
+
 def reader_functions(facts):
+    """every member function of a MarkupParser class (callbacks and private helpers) and of MeshFileReader"""
     for f in facts.functions:
         if f.tk == "pattern" or f.cfg is None:
             continue
-        if f.name in ("create", "content") or f.qn.endswith("MeshFileReader::read_root_markup"):
+        if f.cls in PARSER_CLS or f.cls == "FEAT::Geometry::MeshFileReader":
             yield f
 
 
@@ -1378,8 +1578,40 @@ def rule_tokens(ck, W, facts):
         e = W.ecfg(f)
         for name, (var, init) in decls.items():
             key = "%s::%s/%s" % (short(f.cls), f.name, name)
-            rec = seen.setdefault(key, {"probs": [], "fn": f, "line": var.get("l") or init.get("l"), "n": 0, "acc": 0})
+            rec = seen.setdefault(key, {"probs": [], "unk": [], "fn": f, "line": var.get("l") or init.get("l"), "n": 0, "acc": 0})
             rec["n"] += 1
+            # does the deque leave the modelled uses (own size/element accessors, begin/end, range-for)?
+            escapes = []
+            iters = {}
+            for x in f.nodes():
+                if x.get("k") == "Ref" and x.get("n") == name and x.get("dk") == "local":
+                    par_ = e.parent(x)
+                    while par_ is not None and par_.get("k") == "Cast":
+                        par_ = e.parent(par_)
+                    if par_ is None:
+                        continue
+                    if par_.get("k") == "MCall" and strip(par_.get("obj")) is x:
+                        if par_.get("n") in ("size", "empty", "at", "front", "back", "operator[]", "begin", "end", "cbegin", "cend"):
+                            if par_.get("n") in ("begin", "cbegin"):
+                                v_ = e.parent(par_)
+                                while v_ is not None and v_.get("k") in ("Cast", "Construct", "TempObj"):
+                                    v_ = e.parent(v_)
+                                if v_ is not None and v_.get("k") == "Var":
+                                    iters[v_["n"]] = v_
+                            continue
+                    if par_.get("k") == "OpCall" and par_.get("op") == "[]" and strip(par_["a"][0]) is x:
+                        continue
+                    if par_.get("k") in ("ForRange", "Var", "Decl"):
+                        continue
+                    escapes.append(render(par_)[:50])
+            for itn, itv in iters.items():
+                for x in f.nodes():
+                    if x.get("k") == "OpCall" and x.get("op") in ("->", "*") and len(x.get("a", [])) == 1 and strip(x["a"][0]).get("k") == "Ref" and strip(x["a"][0])["n"] == itn:
+                        rec["acc"] += 1
+                        fs_ = e.facts_at(x) or set()
+                        a_, b_ = sorted((itn, "%s.end()" % name))
+                        if not find_fact(fs_, "==", A=a_, B=b_, truth=False):
+                            rec["unk"].append("line %s: token reached through iterator `%s` without a dominating `%s != %s.end()`; counting iterators is not modelled" % (x.get("l"), itn, itn, name))
             src = strip(init.get("obj"))
             from_line = (f.name == "content" and src is not None and src.get("k") == "Ref" and src.get("dk") == "param"
                          and len(f.params) >= 2 and src.get("n") == f.params[1]["n"])
@@ -1409,7 +1641,10 @@ def rule_tokens(ck, W, facts):
                     # scanner contract (rule E7.scanner-nonempty-line): content lines are trimmed and non-empty
                     fs.add(("<", "0", size_s, True, frozenset(), frozenset()))
                 elif not sizefacts:
-                    rec["probs"].append("line %s: `%s` without any dominating check of %s" % (acc.get("l"), render(acc)[:60], size_s))
+                    if escapes:
+                        rec["unk"].append("line %s: no check of %s seen before `%s`, but the deque is handed to %s" % (acc.get("l"), size_s, render(acc)[:40], escapes))
+                    else:
+                        rec["probs"].append("line %s: `%s` without any dominating check of %s" % (acc.get("l"), render(acc)[:60], size_s))
                     continue
                 REG.setdefault(size_s, {"k": "Ref", "n": size_s, "dk": "local"})
                 sz = REG[size_s]
@@ -1424,7 +1659,11 @@ def rule_tokens(ck, W, facts):
                     ck.incomplete("E7.token-guard", "%s line %s: cannot evaluate `%s` (%s)" % (key, acc.get("l"), render(acc)[:60], ex))
                     continue
                 if wit is not None:
-                    rec["probs"].append("line %s: `%s` can be out of range: %s" % (acc.get("l"), render(acc)[:60], fmt_witness(wit)))
+                    sus = suspects(W, e, acc, set(wit[0]) | {name})
+                    if escapes or sus:
+                        rec["unk"].append("line %s: `%s` not provably in range, but %s may restrict it" % (acc.get("l"), render(acc)[:40], escapes or sus))
+                    else:
+                        rec["probs"].append("line %s: `%s` can be out of range: %s" % (acc.get("l"), render(acc)[:60], fmt_witness(wit)))
                 elif nok == 0:
                     ck.incomplete("E7.token-guard", "%s line %s: no consistent assignment in the bounded model for `%s`" % (key, acc.get("l"), render(acc)[:60]))
                 # the size check must reject with a documented exception
@@ -1433,6 +1672,9 @@ def rule_tokens(ck, W, facts):
                     if orig and f.name in PARSER_METHODS and not any(documented(e.throw_classes_from(o)) for o in orig):
                         rec["probs"].append("line %s: the size check on %s does not reject with a documented Xml::*Error" % (acc.get("l"), name))
     for key, rec in sorted(seen.items()):
+        if rec["unk"] and not rec["probs"]:
+            undecided(ck, "E7.token-guard", key, "; ".join(sorted(set(rec["unk"]))))
+            continue
         ck.ob("E7.token-guard", key, not rec["probs"],
               "; ".join(sorted(set(rec["probs"]))) if rec["probs"] else "%d token accesses within the checked size (%d instantiation(s))" % (rec["acc"], rec["n"]),
               rec["fn"].file, rec["line"])
@@ -1495,10 +1737,17 @@ def rule_attr_index(ck, W, facts):
                 ck.incomplete("E2.attr-index-range", "%s line %s: cannot evaluate `%s` (%s)" % (key, n.get("l"), render(n)[:60], ex))
                 continue
             if wit is not None:
-                rec["probs"].append("`%s` is reached with an index outside the container: %s passes every preceding rejection" % (render(n)[:60], fmt_witness(wit)))
+                sus = suspects(W, e, n, vars_of(arg) | vars_of(cont))
+                if sus:
+                    rec.setdefault("unk", []).append("`%s` not provably inside the container, but %s may restrict the index" % (render(n)[:50], sus))
+                else:
+                    rec["probs"].append("`%s` is reached with an index outside the container: %s passes every preceding rejection" % (render(n)[:60], fmt_witness(wit)))
             elif nok == 0:
                 ck.incomplete("E2.attr-index-range", "%s: no consistent assignment in the bounded model" % key)
     for key, rec in sorted(seen.items()):
+        if rec.get("unk") and not rec["probs"]:
+            undecided(ck, "E2.attr-index-range", key, "; ".join(sorted(set(rec["unk"]))))
+            continue
         ck.ob("E2.attr-index-range", key, not rec["probs"],
               "; ".join(sorted(set(rec["probs"]))) if rec["probs"] else "index within [0,size) under the dominating rejections (%d accesses)" % rec["n"],
               rec["fn"].file, rec["line"])
@@ -1608,11 +1857,25 @@ def rule_index_range(ck, W, facts):
     cfs_all = class_functions(facts)
     seen = {}
 
-    def record(key, f, line, prob):
-        rec = seen.setdefault(key, {"probs": [], "fn": f, "line": line, "n": 0})
+    def record(key, f, line, prob, unk=None):
+        rec = seen.setdefault(key, {"probs": [], "unk": [], "fn": f, "line": line, "n": 0})
         rec["n"] += 1
         if prob:
             rec["probs"].append(prob)
+        if unk:
+            rec["unk"].append(unk)
+
+    def other_compare(e, V):
+        """comparisons of V with anything, and calls V is handed to: the bound may be enforced in a form the rule does not match"""
+        out = []
+        for b in e.el:
+            br = e.branch(b)
+            if br is None:
+                continue
+            for fa in atom_facts(br[0], True):
+                if fa[0] in ("<", "==") and V in (fa[1], fa[2]):
+                    out.append("`%s %s %s`" % (fa[1], fa[0], fa[2]))
+        return sorted(set(out))
 
     for f in reader_functions(facts):
         cfs = cfs_all.get(f.cls, [f])
@@ -1625,7 +1888,7 @@ def rule_index_range(ck, W, facts):
                 continue
             key = "%s::%s/%s" % (short(f.cls), f.name, index_store_name(f, n["a"][0]))
             if isinstance(bound, tuple):
-                record(key, f, n.get("l"), bound[1])
+                record(key, f, n.get("l"), None, bound[1])
                 continue
             e = e or W.ecfg(f)
             cb = call_branch(e, n)
@@ -1636,6 +1899,11 @@ def rule_index_range(ck, W, facts):
             b, succ_ok = hit
             V = norm(n["a"][0])
             bad = passes_check(e, succ_ok, ("<", V, bound, True), b)
+            if bad:
+                oth = other_compare(e, V) + suspects(W, e, None, vars_of(n["a"][0]), anywhere=True)
+                if oth:
+                    record(key, f, n.get("l"), None, "`%s` is not seen compared with %s, but %s may enforce the bound" % (V, bound, oth))
+                    continue
             record(key, f, n.get("l"),
                    ("the parsed index `%s` reaches %s without being compared with %s: an out-of-range index is stored in the index set" % (V, " and ".join(bad), bound)) if bad else None)
         # DynamicGraph::insert arguments
@@ -1659,15 +1927,28 @@ def rule_index_range(ck, W, facts):
                                     fs = eg.facts_at_end(xb, eg.exit) or set()
                                     if not find_fact(fs, "<", A=V, B=bound, truth=True):
                                         probs.append("%s() returns normally without `%s < %s`" % (g.name, V, bound))
-                                record(key, g, g.line, "; ".join(sorted(set(probs))) if probs else None)
+                                oth = (other_compare(eg, V) + suspects(W, eg, None, {"@" + V}, anywhere=True)) if probs else []
+                                if probs and oth:
+                                    record(key, g, g.line, None, "%s; but %s may enforce it" % (probs[0], oth))
+                                else:
+                                    record(key, g, g.line, "; ".join(sorted(set(probs))) if probs else None)
                                 done = True
                         if not done:
-                            record(key, f, n.get("l"), "field %s is used as a graph node index but no callback parses/checks it" % V)
+                            record(key, f, n.get("l"), None, "field %s is used as a graph node index but the callback that parses it was not found" % V)
                     else:
                         fs = e.facts_at(n) or set()
-                        record(key, f, n.get("l"),
-                               None if find_fact(fs, "<", A=V, B=bound, truth=True) else "`%s` is reached without `%s < %s`" % (render(n)[:60], V, bound))
+                        if find_fact(fs, "<", A=V, B=bound, truth=True):
+                            record(key, f, n.get("l"), None)
+                        else:
+                            oth = other_compare(e, V) + suspects(W, e, n, vars_of(a))
+                            if oth:
+                                record(key, f, n.get("l"), None, "`%s < %s` not seen before `%s`, but %s may enforce it" % (V, bound, render(n)[:40], oth))
+                            else:
+                                record(key, f, n.get("l"), "`%s` is reached without `%s < %s`" % (render(n)[:60], V, bound))
     for key, rec in sorted(seen.items()):
+        if rec["unk"] and not rec["probs"]:
+            undecided(ck, "E2.index-range", key, "; ".join(sorted(set(rec["unk"]))))
+            continue
         ck.ob("E2.index-range", key, not rec["probs"],
               "; ".join(sorted(set(rec["probs"]))) if rec["probs"] else "compared with the bound before it is kept (%d instantiation(s))" % rec["n"],
               rec["fn"].file, rec["line"])
@@ -1695,12 +1976,18 @@ def attribs_table(fn):
 
 def rule_mandatory(ck, W, pcs, facts):
     seen = {}
+    cfs_all = class_functions(facts)
+    work = []
     for pc in pcs:
         table, checks = attribs_table(pc.m["attribs"])
-        f = pc.m["create"]
-        if len(f.params) < 4:
-            continue
-        attrs = f.params[3]["n"]
+        for f in cfs_all.get(pc.cls, []):
+            if f.cfg is None:
+                continue
+            for prm in f.params:
+                t = f.type(prm["t"]) or ""
+                if re.search(r"std::map<(FEAT::)?String, (FEAT::)?String", t):
+                    work.append((pc, table, checks, f, prm["n"]))
+    for pc, table, checks, f, attrs in work:
         e = None
         for n in f.nodes():
             if not (n.get("k") == "MCall" and n.get("n") == "find" and strip(n.get("obj")) is not None
@@ -1708,7 +1995,7 @@ def rule_mandatory(ck, W, pcs, facts):
                 continue
             K = norm(n["a"][0]).strip('"')
             key = "%s::create/%s" % (pc.short, K)
-            rec = seen.setdefault(key, {"probs": [], "fn": f, "line": n.get("l"), "n": 0})
+            rec = seen.setdefault(key, {"probs": [], "unk": [], "fn": f, "line": n.get("l"), "n": 0})
             rec["n"] += 1
             if table is None:
                 ck.incomplete("E7.mandatory-attr", "%s::attribs registers attributes in a form that is not understood" % pc.cls)
@@ -1728,7 +2015,8 @@ def rule_mandatory(ck, W, pcs, facts):
                     if x.get("k") == "OpCall" and x.get("op") in ("->", "*") and strip(x["a"][0]).get("k") == "Ref" and strip(x["a"][0])["n"] == it:
                         derefs.append((x, it))
             if K not in table:
-                rec["probs"].append("attribute '%s' is looked up but not registered in attribs(): the scanner rejects it as unexpected" % K)
+                if checks:
+                    rec["probs"].append("attribute '%s' is looked up but not registered in attribs(): the scanner rejects it as unexpected" % K)
                 continue
             for d, it in derefs:
                 guarded = False
@@ -1740,9 +2028,17 @@ def rule_mandatory(ck, W, pcs, facts):
                 if guarded:
                     continue
                 if not (table.get(K) and checks):
-                    rec["probs"].append("line %s: find(\"%s\") is dereferenced without an end() check although '%s' is %s" % (
-                        d.get("l"), K, K, "optional" if checks else "not validated (attribs() returns false)"))
+                    alt = [render(x)[:40] for x in f.nodes() if x.get("k") == "MCall" and x.get("n") in ("count", "contains", "at")
+                           and root_var(x.get("obj")) == attrs] + suspects(W, e, d, {attrs} | ({it} if it else set()))
+                    if alt:
+                        rec["unk"].append("line %s: find(\"%s\") dereferenced without a visible end() check, but %s may guard it" % (d.get("l"), K, alt))
+                    else:
+                        rec["probs"].append("line %s: find(\"%s\") is dereferenced without an end() check although '%s' is %s" % (
+                            d.get("l"), K, K, "optional" if checks else "not validated (attribs() returns false)"))
     for key, rec in sorted(seen.items()):
+        if rec["unk"] and not rec["probs"]:
+            undecided(ck, "E7.mandatory-attr", key, "; ".join(sorted(set(rec["unk"]))))
+            continue
         ck.ob("E7.mandatory-attr", key, not rec["probs"],
               "; ".join(sorted(set(rec["probs"]))) if rec["probs"] else "guarded by end() or registered mandatory (%d instantiation(s))" % rec["n"],
               rec["fn"].file, rec["line"])
@@ -1834,11 +2130,21 @@ def rule_counter_extent(ck, W, pcs, facts, limits):
                             r = strip(x["rhs"])
                             if r.get("k") == "MCall" and r.get("n") == "get_num_entities" and norm(r.get("obj")) == recv and not r.get("a"):
                                 ex1 = strip(x["lhs"])["n"]
+                    if isinstance(ex1, tuple):
+                        # definite: the field the counter is rejected against is filled from another accessor of the same set
+                        for x in g.nodes():
+                            if x.get("k") == "Assign" and is_this_field(x["lhs"]) and strip(x["lhs"])["n"] in lims:
+                                r = strip(x["rhs"])
+                                if r.get("k") == "MCall" and norm(r.get("obj")) == recv and r.get("n") != "get_num_entities" and not r.get("a"):
+                                    ex1 = ("!", "%s() sets the rejection limit %s = %s.%s(), but %s points to %s.get_indices() whose extent is %s.get_num_entities()" % (
+                                        g.name, strip(x["lhs"])["n"], recv, r.get("n"), fld, recv, recv))
                     m = re.match(r"FEAT::Geometry::IndexSet<(\d+)>", rhs.get("ccls") or "")
                     if m:
                         # tuple storage: the subscript must be counter*tuple_size+i, i < tuple_size, tuple_size = n of IndexSet<n>
                         sv = [norm(r) for gg, r in field_assignments([g], S)] if S else []
-                        if not (stride_form and S and sv and all(v == m.group(1) for v in sv)):
+                        if stride_form and S and sv and all(re.fullmatch(r"\d+", v) for v in sv) and any(v != m.group(1) for v in sv):
+                            ex1 = ("!", "%s() sets the tuple stride %s = %s but the storage is IndexSet<%s>" % (g.name, S, sv, m.group(1)))
+                        elif not (stride_form and S and sv and all(v == m.group(1) for v in sv)):
                             ex1 = ("?", "subscript `%s` of tuple storage IndexSet<%s> is not counter*%s+i with i < %s (%s() sets %s = %s)" % (
                                 norm(idx), m.group(1), m.group(1), m.group(1), g.name, S, sv))
                     elif norm(idx) != C:
@@ -1854,13 +2160,18 @@ def rule_counter_extent(ck, W, pcs, facts, limits):
             if exp is None:
                 continue
             key = "%s::content/%s" % (pc.short, what)
-            rec = seen.setdefault(key, {"probs": [], "fn": content, "line": n.get("l"), "n": 0})
+            rec = seen.setdefault(key, {"probs": [], "unk": [], "fn": content, "line": n.get("l"), "n": 0})
             rec["n"] += 1
             if isinstance(exp, tuple):
-                rec["probs"].append(exp[1])
+                (rec["probs"] if exp[0] == "!" else rec["unk"]).append(exp[1])
+            elif not lims:
+                rec["unk"].append("no rejection limit of %s was established (see E7.counter-guard)" % C)
             elif exp not in lims:
                 rec["probs"].append("`%s` is indexed by %s, whose rejection limit is %s, but the extent of the container is %s" % (what, C, lims, exp))
     for key, rec in sorted(seen.items()):
+        if rec["unk"] and not rec["probs"]:
+            undecided(ck, "E2.counter-extent", key, "; ".join(sorted(set(rec["unk"]))))
+            continue
         ck.ob("E2.counter-extent", key, not rec["probs"],
               "; ".join(sorted(set(rec["probs"]))) if rec["probs"] else "limit is the extent of the indexed container (%d instantiation(s))" % rec["n"],
               rec["fn"].file, rec["line"])
@@ -1935,7 +2246,7 @@ def rule_scanner(ck, W, sfacts):
                         if c.get("k") == "MCall" and c.get("cfull") == f.full and (c.get("obj") is None or strip(c["obj"]).get("k") == "This"):
                             sites.append((g, c))
                 if not sites:
-                    ck.ob("E7.scanner-stack", key, False, "`%s` relies on a non-empty stack but %s() has no caller that establishes it" % (render(n)[:50], f.name), f.file, n.get("l"))
+                    undecided(ck, "E7.scanner-stack", key, "`%s` relies on a non-empty stack as a precondition of %s(), which has no caller inside the class" % (render(n)[:50], f.name))
                     continue
                 probs = []
                 for g, c in sites:
@@ -1950,11 +2261,18 @@ def rule_scanner(ck, W, sfacts):
         for n in f.nodes():
             if n.get("k") == "Call" and re.match(r"std::getline", n.get("callee") or "") and n.get("a") and is_this_field(n["a"][0]):
                 e = e or W.ecfg(f)
-                # counter = the int field incremented in this function
+                # counter = the int field incremented here, directly or through a member function that increments it
                 incs = [(c, x) for c, x in this_counter(f)]
+                cls_ctrs = sorted({c for g in fns for c, _ in this_counter(g)})
+                for x in f.nodes():
+                    if x.get("k") == "MCall" and (x.get("obj") is None or strip(x["obj"]).get("k") == "This"):
+                        ms = MODSETS.get(x.get("cfull")) or set()
+                        for c in cls_ctrs:
+                            if ("@" + c) in ms and x.get("i") is not None:
+                                incs.append((c, x))
                 key = "Scanner::%s/getline" % f.name
                 if not incs:
-                    ck.ob("E7.scanner-line-count", key, False, "std::getline consumes a line but no line counter is incremented in %s()" % f.name, f.file, n.get("l"))
+                    undecided(ck, "E7.scanner-line-count", key, "std::getline consumes a line but no increment of a line counter field is visible in %s() or its member callees" % f.name)
                     continue
                 w = e.where(n)
                 inc_ids = {x["i"] for _, x in incs}
@@ -1992,7 +2310,14 @@ def rule_scanner(ck, W, sfacts):
                 if not find_fact(fs, "<", A="0", B="%s.size()" % line, truth=True):
                     probs.append("line %s: returns true without `!%s.empty()`" % (n.get("l"), line))
         trims = [n for n in f.nodes() if n.get("k") == "MCall" and n.get("n") in ("trim_me",) and is_this_field(n.get("obj")) and strip(n["obj"])["n"] == line]
+        trims += [n for n in f.nodes() if n.get("k") in ("OpCall", "Assign") and (n.get("op") == "=") and root_var((n.get("a") or [n.get("lhs")])[0]) == line
+                  and any(x.get("k") == "MCall" and x.get("n") == "trim" for x in walk(n))]
         if not trims:
+            other = [render(n)[:40] for n in f.nodes() if n.get("k") == "MCall" and root_var(n.get("obj")) == line and not n.get("cconst")
+                     and n.get("n") not in ("empty", "size", "reserve")] + suspects(W, e, None, {"@" + line}, anywhere=True)
+            if other:
+                undecided(ck, "E7.scanner-nonempty-line", "Scanner::read_next_line/%s" % line, "no trim_me()/trim() of the line recognised, but %s may trim it" % other)
+                continue
             probs.append("the line is not trimmed before the emptiness test")
         ck.ob("E7.scanner-nonempty-line", "Scanner::read_next_line/%s" % line, not probs, "; ".join(probs) or "returns true only for a trimmed non-empty line", f.file, f.line)
         for g in byname.get("process_content", []):
@@ -2078,7 +2403,7 @@ class Emitter:
         for n in f.nodes():
             if n.get("k") == "OpCall" and n.get("op") == "<<":
                 base, ops = flatten_shift(n)
-                if "ostream" in (f.ntype(base) or "") and any(str_value(o) is not None for o in ops):
+                if ("ostream" in (f.ntype(base) or "") or "stringstream" in (f.ntype(base) or "")) and any(str_value(o) is not None for o in ops):
                     r = True
                     break
         if not r:
@@ -2113,59 +2438,154 @@ class Emitter:
         out = [] if out is None else out
         if depth > 12:
             raise featlib.AnalysisBroken("writer inlining too deep at " + f.full)
-        self._stmt(f, f.body, subst or {}, cond, depth, out)
+        self._stmt(f, f.body, subst or {}, cond, depth, out, {})
         return out
 
-    def _stmt(self, f, n, subst, cond, depth, out):
+    # ---- what is known about a string value ------------------------------------------------------
+    SPACE_MUT = ("append", "resize", "push_back", "operator+=", "reserve", "pop_back", "clear", "assign", "insert")
+
+    def _space_arg(self, f, n, subst, depth=0):
+        """does the expression consist of blanks only (indentation strings)?  Decided from its definition and every mutation:
+        literals of blanks, resize(n, ' ') / resize(n) / append("  ") on a blank string, copies of blank strings"""
+        n = strip(n)
+        if n is None or depth > 4:
+            return False
+        v = str_value(n)
+        if v is not None:
+            return v.strip(" ") == ""
+        k = n.get("k")
+        if k in ("Construct", "TempObj") and (n.get("ccls") or "") in ("FEAT::String", "std::basic_string<char>"):
+            args = n.get("a", [])
+            if len(args) == 0:
+                return True
+            if len(args) == 1:
+                return self._space_arg(f, args[0], subst, depth + 1)
+            if len(args) == 2 and strip(args[1]).get("k") == "Char":
+                return chr(strip(args[1])["v"]) == " "
+            return False
+        if k == "Ref" and n.get("dk") == "param":
+            return bool(subst.get("\0sp:" + n["n"]))
+        if k == "Ref" and n.get("dk") == "local":
+            init = local_init(f, n["n"])
+            if init is None or not self._space_arg(f, init, subst, depth + 1):
+                return False
+            return self._mutations_blank(f.nodes(), lambda o: strip(o).get("k") == "Ref" and strip(o).get("n") == n["n"], f, subst, depth)
+        if is_this_field(n):
+            fns = [g for g in self.W.fns.values() if g.cls == f.cls]
+            inits_ok = True
+            for g in fns:
+                for i in (g.d.get("inits") or []):
+                    if (i.get("n") or i.get("field")) == n["n"] and i.get("init") is not None and not self._space_arg(g, i["init"], {}, depth + 1):
+                        inits_ok = False
+            return inits_ok and all(self._mutations_blank(g.nodes(), lambda o: is_this_field(o) and strip(o)["n"] == n["n"], g, {}, depth) for g in fns)
+        return False
+
+    def _mutations_blank(self, nodes, is_target, f, subst, depth):
+        for x in nodes:
+            if x.get("k") == "MCall" and x.get("obj") is not None and is_target(x["obj"]) and not x.get("cconst"):
+                nm = x.get("n")
+                args = x.get("a", [])
+                if nm in ("reserve", "pop_back", "clear") or ACCESSOR_RE.match(nm or ""):
+                    continue
+                if nm == "resize" and (len(args) == 1 or (len(args) == 2 and strip(args[1]).get("k") == "Char" and chr(strip(args[1])["v"]) == " ")):
+                    continue
+                if nm in ("append", "operator+=", "push_back", "assign") and len(args) == 1 and \
+                   (self._space_arg(f, args[0], subst, depth + 1) or (strip(args[0]).get("k") == "Char" and chr(strip(args[0])["v"]) == " ")):
+                    continue
+                return False
+            if x.get("k") in ("Assign",) and is_target(x["lhs"]) and not self._space_arg(f, x["rhs"], subst, depth + 1):
+                return False
+            if x.get("k") == "OpCall" and x.get("op") in ("=", "+=") and x.get("a") and is_target(x["a"][0]) and not self._space_arg(f, x["a"][1], subst, depth + 1):
+                return False
+        return True
+
+    def _lambda_of(self, f, ref):
+        t = f.ntype(strip(ref)) or ""
+        m = re.search(r"\(lambda at [^:]+:(\d+):\d+\)", t)
+        if not m:
+            return None
+        cands = [g for g in self.W.by_full.get("%s::<lambda@%s>" % (f.full, m.group(1)), []) if g.facts is f.facts]
+        return cands[0] if len(cands) == 1 else None
+
+    def _inline(self, f, n, g, args, subst, cond, depth, out):
+        sub = {}
+        for p, a in zip(g.params, args):
+            v = str_value(a)
+            if v is None and strip(a).get("k") == "Ref" and strip(a)["n"] in subst:
+                v = subst[strip(a)["n"]]
+            if v is not None:
+                sub[p["n"]] = v
+            if self._space_arg(f, a, subst):
+                sub["\0sp:" + p["n"]] = True
+        out.append(("enter", g, cond))
+        self.events(g, sub, cond, depth + 1, out)
+        out.append(("leave", g, cond))
+
+    def _stmt(self, f, n, subst, cond, depth, out, bufs):
         if n is None:
             return
         k = n.get("k")
         if k == "Block":
             for s in n.get("s", []):
-                self._stmt(f, s, subst, cond, depth, out)
+                self._stmt(f, s, subst, cond, depth, out, bufs)
         elif k == "If":
-            self._stmt(f, n.get("then"), subst, cond + 1, depth, out)
-            self._stmt(f, n.get("else"), subst, cond + 1, depth, out)
+            out.append(("branch", "then", cond))
+            self._stmt(f, n.get("then"), subst, cond + 1, depth, out, bufs)
+            out.append(("branch", "else", cond))
+            self._stmt(f, n.get("else"), subst, cond + 1, depth, out, bufs)
+            out.append(("branch", "end", cond))
         elif k in ("For", "While", "Do", "ForRange"):
-            self._stmt(f, n.get("body"), subst, cond + 1, depth, out)
+            self._stmt(f, n.get("body"), subst, cond + 1, depth, out, bufs)
         elif k == "OpCall" and n.get("op") == "<<":
             base, ops = flatten_shift(n)
-            if "ostream" not in (f.ntype(base) or ""):
+            bt = f.ntype(base) or ""
+            if "ostream" not in bt and "stringstream" not in bt:
                 return
+            target = out
+            if strip(base).get("k") == "Ref" and strip(base).get("dk") == "local" and "stringstream" in bt:
+                target = bufs.setdefault(strip(base)["n"], [])       # a local string stream: buffered until its str() is emitted
             for o in ops:
-                self._operand(f, o, subst, cond, out)
+                self._operand(f, o, subst, cond, target, bufs)
+        elif k == "OpCall" and n.get("op") == "()" and n.get("a") and strip(n["a"][0]).get("k") == "Ref":
+            g = self._lambda_of(f, n["a"][0])
+            if g is not None and self.emits(g):
+                self._inline(f, n, g, n["a"][1:], subst, cond, depth, out)
         elif k in ("Call", "MCall"):
             for g in self.targets(n):
                 if not self.emits(g):
                     continue
-                sub = {}
-                for p, a in zip(g.params, n.get("a", [])):
-                    v = str_value(a)
-                    if v is None and strip(a).get("k") == "Ref" and strip(a)["n"] in subst:
-                        v = subst[strip(a)["n"]]
-                    if v is not None:
-                        sub[p["n"]] = v
-                out.append(("enter", g, cond))
-                self.events(g, sub, cond, depth + 1, out)
-                out.append(("leave", g, cond))
+                self._inline(f, n, g, n.get("a", []), subst, cond, depth, out)
         elif k in ("Try",):
             for c in children(n):
-                self._stmt(f, c, subst, cond, depth, out)
+                self._stmt(f, c, subst, cond, depth, out, bufs)
 
-    def _operand(self, f, o, subst, cond, out):
+    def _operand(self, f, o, subst, cond, out, bufs=None):
         v = str_value(o)
         s = strip(o)
         if v is None and s.get("k") == "Ref" and s.get("dk") == "param" and s["n"] in subst:
             v = subst[s["n"]]
+        if v is None and s.get("k") == "Ref" and s.get("dk") == "local":
+            # a local that names a literal and is never re-assigned (`const char* nl = "\n";`)
+            init = local_init(f, s["n"])
+            iv = str_value(init) if init is not None else None
+            if iv is not None and not any((x.get("k") == "Assign" and root_var(x["lhs"]) == s["n"]) or
+                                          (x.get("k") == "OpCall" and x.get("op") in ("=", "+=") and x.get("a") and root_var(x["a"][0]) == s["n"]) or
+                                          (x.get("k") == "MCall" and root_var(x.get("obj")) == s["n"] and not x.get("cconst") and not ACCESSOR_RE.match(x.get("n") or ""))
+                                          for x in f.nodes()):
+                v = iv
         if v is not None:
             out.append(("lit", v, cond, (f, o)))
+            return
+        if bufs is not None and s.get("k") == "MCall" and s.get("n") == "str" and not s.get("a") and strip(s.get("obj")).get("k") == "Ref" \
+           and strip(s["obj"])["n"] in bufs:
+            out.extend(bufs[strip(s["obj"])["n"]])
             return
         if s.get("k") == "Cond":
             alts = [str_value(s["then"]), str_value(s["else"])]
             if all(a is not None for a in alts):
                 out.append(("alt", alts, cond, (f, o)))
                 return
-        out.append(("val", s, cond, (f, o)))
+        out.append(("val", s, cond, (f, o), self._space_arg(f, s, subst)))
 
 
 class Tag:
@@ -2187,6 +2607,8 @@ class TagParser:
         self.pending = None          # (tag path, 'open'|'close', node) whose '>' has not been followed by a newline yet
         self.problems = []           # structural problems (analysis incomplete)
         self.line_viol = []          # (path, kind, what)
+        self.line_unknown = []
+        self.frames = []             # open if-statements: {"then": attrs completed there, "else": ..., "cur": branch, "level": outer level}
         self.markups = []            # (path, kind) of every completed markup
         self.cur = None
         self.name = ""
@@ -2298,19 +2720,37 @@ class TagParser:
                 elif a["values"] is not None:
                     a["values"] |= vals
                 a["raw"].append(self.aval)
+                for fr in self.frames:
+                    fr[fr["cur"]].add((id(self.cur), self.aname))
                 self.state = "tag"
             else:
                 self.aval += ch
             return
 
+    def branch(self, what, level):
+        if what == "then":
+            self.frames.append({"then": set(), "else": set(), "cur": "then", "level": level})
+        elif what == "else" and self.frames:
+            self.frames[-1]["cur"] = "else"
+        elif what == "end" and self.frames:
+            fr = self.frames.pop()
+            # an attribute written in both branches of an if is written whenever the if itself is reached
+            for tid, an in fr["then"] & fr["else"]:
+                if self.cur is not None and id(self.cur) == tid and an in self.cur.attrs:
+                    self.cur.attrs[an]["cond"] = fr["level"] > self.cur.cond
+                for outer in self.frames:
+                    outer[outer["cur"]].add((tid, an))
+
     def lit(self, text, cond, node):
         for ch in text:
             self.feed(ch, cond, node)
 
-    def val(self, cond, node, where=None):
+    def val(self, cond, node, where=None, blank=False):
         if self.state == "out":
             if self.pending is not None:
-                self.line_viol.append((self.pending[0], self.pending[1], "is followed by the value `%s` on the same line" % render(node)[:40], self.pending[2]))
+                if blank:
+                    return          # indentation: consists of blanks only, the next character decides
+                self.line_unknown.append((self.pending[0], self.pending[1], "is followed by the value `%s`, whose text is not known" % render(node)[:40], self.pending[2]))
                 self.pending = None
         elif self.state == "value":
             self.ahole = True
@@ -2345,17 +2785,15 @@ def writer_tree(W, ck, entry):
         if ev[0] == "lit":
             tp.lit(ev[1], ev[2], ev[3])
         elif ev[0] == "val":
-            tp.val(ev[2], ev[1], ev[3])
+            tp.val(ev[2], ev[1], ev[3], ev[4] if len(ev) > 4 else False)
         elif ev[0] == "alt":
             tp.alt(ev[1], ev[2], ev[3])
+        elif ev[0] == "branch":
+            tp.branch(ev[1], ev[2])
         elif ev[0] == "enter":
             fstack.append(ev[1])
         elif ev[0] == "leave":
-            # a callee must leave the stream at a line boundary (its caller's next output starts a new markup/line)
-            if tp.pending is not None:
-                tp.line_viol.append((tp.pending[0], tp.pending[1], "is the last thing %s() writes: the markup is not terminated by a line break" % fstack[-1].name, tp.pending[2]))
-                tp.pending = None
-            fstack.pop()
+            fstack.pop()       # a pending markup end is carried to the caller: its next character must be the line break
     tp.finish()
     return tp
 
@@ -2453,7 +2891,34 @@ def attr_value_literals(fn, attrs_param):
                     K = str_value(z["a"][0])
             if K is not None:
                 out.setdefault(K, set()).add(lit)
+                CMP_NODES.setdefault(id(fn), []).append((n, K, lit, c[0]))
     return out
+
+
+CMP_NODES = {}
+
+
+def reader_rejects_value(W, fn, K, v):
+    """does every path of fn that is consistent with `value of attribute K == v` (only the comparisons of that value with
+    literals are decided, every other branch stays open) end in a throw?"""
+    e = W.ecfg(fn)
+    cut = set()
+    for b in e.el:
+        br = e.branch(b)
+        if br is None:
+            continue
+        leaf, t, fl = br
+        y, neg = strip(leaf), False
+        while y is not None and y.get("k") == "Un" and y.get("op") == "!":
+            y, neg = strip(y["e"]), not neg
+        for node, K2, lit, op in CMP_NODES.get(id(fn), []):
+            if K2 == K and y is not None and (y is node or (y.get("i") is not None and y.get("i") == node.get("i") and y.get("k") == node.get("k"))):
+                truth = (v == lit) if op == "==" else (v != lit)
+                if neg:
+                    truth = not truth
+                cut.add((b, fl if truth else t))
+    reach = e.reachable(cut_edges=cut)
+    return e.exit not in reach or not any(b in reach and b not in e.throws and e.exit in e.succ.get(b, []) and (b, e.exit) not in cut for b in reach)
 
 
 
@@ -2712,6 +3177,8 @@ def rule_vocabulary(ck, W, facts, pcs):
     voc = {}      # tag path -> list of problems
     lines = {}    # (path, kind) -> problems
     info = {}
+    lines_unk = {}
+    voc_unk = {}
     comp = {}     # (attribute site, field) -> {"probs", "fn", "node"}
     cfs_all = class_functions(facts)
     nonsquare = set()
@@ -2737,6 +3204,9 @@ def rule_vocabulary(ck, W, facts, pcs):
             ck.incomplete("E12.vocabulary", "%s: %s" % (entry.full[:80], p))
         for path, kind in tp.markups:
             lines.setdefault((path, kind), [])
+        for path, kind, what, node in tp.line_unknown:
+            lines_unk.setdefault((path, kind), []).append(what)
+            info.setdefault(("L", path, kind), node)
         for path, kind, what, node in tp.line_viol:
             lines.setdefault((path, kind), []).append("the %s markup of <%s> %s (the scanner reads one markup per line)" % (
                 "opening" if kind == "open" else "closing", path.rsplit("/", 1)[-1], what))
@@ -2770,8 +3240,8 @@ def rule_vocabulary(ck, W, facts, pcs):
                 for a, spec in tag.attrs.items():
                     if a in lits and spec["values"]:
                         for v in sorted(spec["values"]):
-                            if v.strip() not in lits[a]:
-                                probs.append("writer emits %s=\"%s\" but %s::create only knows the values %s" % (a, v, pc.short, sorted(lits[a])))
+                            if v.strip() not in lits[a] and reader_rejects_value(W, create, a, v.strip()):
+                                probs.append("writer emits %s=\"%s\" but %s::create only knows the values %s and rejects everything else" % (a, v, pc.short, sorted(lits[a])))
             # composite attribute values ("conformal:<shape>:<d>:<w>"): field k of the writer's composition <-> token k of the reader
             for v in tag.vals:
                 aname, vnode, where = v
@@ -2779,7 +3249,7 @@ def rule_vocabulary(ck, W, facts, pcs):
                 comp_ = compose_value(W, wf, vnode)
                 if comp_ is None:
                     continue
-                readers = [create]
+                readers = [create] + [g for g in cfs_all.get(pc.cls, []) if g is not create and g.cfg is not None]
                 if len(path.split("/")) == 1:
                     readers += facts.find(qn_re=r"MeshFileReader::read_root_markup$")
                 done = False
@@ -2790,8 +3260,7 @@ def rule_vocabulary(ck, W, facts, pcs):
                     done = True
                     compare_composite(comp, "<%s>@%s" % (path, aname), mesh, comp_, tt, rf, wf, vnode)
                 if not done:
-                    comp.setdefault(("<%s>@%s" % (path, aname), "reader"), {"probs": [], "fn": wf, "node": vnode})["probs"].append(
-                        "writer composes this attribute from several fields but no reader function splits it")
+                    ck.incomplete("E12.vocabulary", "<%s>@%s: the writer composes this attribute from several fields but no reader function that splits it was recognised" % (path, aname))
             kids = reader_children(W, pc_by_cls, pc.m["markup"])
             seen = set()
             for ch in tag.children:
@@ -2801,7 +3270,12 @@ def rule_vocabulary(ck, W, facts, pcs):
                 cp = path + "/" + ch.name
                 voc.setdefault(cp, [])
                 if ch.name not in kids:
-                    voc[cp].append("writer emits <%s> inside <%s> but %s::markup() accepts only %s" % (ch.name, tag.name, pc.short, sorted(kids)))
+                    mk = pc.m["markup"]
+                    nonnull = [x for x in mk.nodes() if x.get("k") == "Return" and not any(y.get("k") == "Null" for y in walk(x))]
+                    if not kids and nonnull:
+                        voc_unk.setdefault(cp, []).append("%s::markup() returns child parsers but no `name == \"...\"` dispatch was recognised" % pc.short)
+                    else:
+                        voc[cp].append("writer emits <%s> inside <%s> but %s::markup() accepts only %s" % (ch.name, tag.name, pc.short, sorted(kids)))
                     match(ch, cp, None, False)
                 else:
                     match(ch, cp, kids[ch.name], True)
@@ -2831,10 +3305,16 @@ def rule_vocabulary(ck, W, facts, pcs):
               rec["fn"].file if rec.get("fn") is not None else None, strip(rec["node"]).get("l") if isinstance(rec.get("node"), dict) else None)
 
     for path, probs in sorted(voc.items()):
+        if not probs and voc_unk.get(path):
+            undecided(ck, "E12.vocabulary", "<%s>" % path, "; ".join(sorted(set(voc_unk[path]))))
+            continue
         fl, ln = loc(info.get(path))
         ck.ob("E12.vocabulary", "<%s>" % path, not probs, "; ".join(sorted(set(probs))) or "tag, attributes and literal attribute values are accepted by the reader",
               fl, ln)
     for (path, kind), probs in sorted(lines.items()):
+        if not probs and lines_unk.get((path, kind)):
+            undecided(ck, "E12.line-per-markup", "<%s>:%s" % (path, kind), "; ".join(sorted(set(lines_unk[(path, kind)]))))
+            continue
         fl, ln = loc(info.get(("L", path, kind)) or info.get(path))
         ck.ob("E12.line-per-markup", "<%s>:%s" % (path, kind), not probs, "; ".join(sorted(set(probs))) or "followed by a line break", fl, ln)
 
@@ -2879,7 +3359,7 @@ def rule_dim_binding(ck, W, facts):
                 if ev[0] == "lit":
                     tp.lit(ev[1], ev[2], ev[3])
                 elif ev[0] == "val":
-                    tp.val(ev[2], ev[1], ev[3])
+                    tp.val(ev[2], ev[1], ev[3], ev[4] if len(ev) > 4 else False)
                 elif ev[0] == "alt":
                     tp.alt(ev[1], ev[2], ev[3])
             for tag in tp.root.children:
@@ -2942,6 +3422,8 @@ def rule_dim_binding(ck, W, facts):
             ok = wmap[key] == rmap[key]
             f, _ = wloc[key]
             ck.ob("E12.dim-binding", k, ok, "writer stores %s%s under dim=%s, reader fills %s%s" % (wmap[key][0], wmap[key][1], dv, rmap[key][0], rmap[key][1]), f.file, f.line)
+        elif key in wmap and not any(rk[0] == kind and rk[1] == shape for rk in rmap):
+            undecided(ck, "E12.dim-binding", k, "no reader function selecting a set for <%s> of %s was recognised" % (kind, shape))
         elif key in wmap:
             f, _ = wloc[key]
             ck.ob("E12.dim-binding", k, False, "writer emits <%s dim=\"%s\"> for %s but the reader has no set for this value" % (kind, dv, shape), f.file, f.line)
@@ -3456,21 +3938,76 @@ def rule_children(ck, W, pcs):
         if not insts:
             ck.incomplete("E7.children-required", "%s: class not instantiated" % key)
             continue
-        probs = []
+        probs, unk = [], []
         for pc in insts:
             mk, close = pc.m["markup"], pc.m["close"]
             sub = branch_for_name(mk, tag)
             if sub is None:
-                probs.append("markup() has no branch for the mandatory child <%s>" % tag)
+                unk.append("no `name == \"%s\"` branch recognised in markup() (the child may be dispatched by another construct)" % tag)
                 continue
             mem = recorded_members(W, mk, sub)
+            # anything in that branch that could record the child in a way the rule does not model?
+            other = []
+            for x in walk(sub):
+                if x.get("k") in ("Call", "MCall") and x.get("callee") != "std::make_shared" and not MODELLED_CALLEES.match(x.get("callee") or "") \
+                   and not (x.get("ccls") or "").startswith("std::"):
+                    own = x.get("k") == "MCall" and (x.get("obj") is None or strip(x["obj"]).get("k") == "This")
+                    passes = any(strip(a) is not None and (strip(a).get("k") == "This" or any(v.startswith("@") for v in vars_of(a))) for a in x.get("a", []))
+                    if (own and not ACCESSOR_RE.match(x.get("n") or "")) or (passes and not ACCESSOR_RE.match(x.get("n") or "x")):
+                        other.append(render(x)[:50])
+                if x.get("k") == "Call" and x.get("callee") == "std::make_shared":
+                    cls_ = first_targ(x.get("cfull") or "")
+                    if len([g for g in W.fns.values() if g.cls == cls_ and g.d.get("ctor") and len(g.params) == len(x.get("a", []))]) != 1:
+                        other.append("constructor of %s (not resolved)" % short(cls_ or "?"))
+            ec = W.ecfg(close)
             if not mem:
-                probs.append("markup() does not record that <%s> was seen (no field is set or handed to the child parser), so close() cannot demand it: "
-                             "an element without its <%s> block is accepted" % (tag, tag))
+                if other:
+                    unk.append("no field is set for <%s> in markup(), but %s may record it" % (tag, other))
+                else:
+                    probs.append("markup() does not record that <%s> was seen (no field is set or handed to the child parser), so close() cannot demand it: "
+                                 "an element without its <%s> block is accepted" % (tag, tag))
                 continue
-            if not any(tested_in_close(W, close, m) for m in mem):
-                probs.append("close() never rejects on %s: an element without its <%s> block is accepted" % (sorted(mem), tag))
+            tested = any(tested_in_close(W, close, m) for m in mem)
+            if not tested:
+                # facts a throwing helper of close() establishes about the recorded fields
+                for b in ec.normal_exits():
+                    fs = ec.facts_at_end(b, ec.exit) or set()
+                    if any(f[4] & {"@" + m for m in mem} for f in fs):
+                        tested = True
+            if not tested:
+                # a flag that markup() sets for this child and that no member function ever reads cannot be demanded anywhere
+                flags = {strip(x["lhs"])["n"] for x in walk(sub) if x.get("k") == "Assign" and is_this_field(x["lhs"])}
+                # member functions that run as part of close()
+                cls_fns, todo = [], [close]
+                while todo:
+                    g = todo.pop()
+                    if any(g is h for h in cls_fns):
+                        continue
+                    cls_fns.append(g)
+                    for x in g.nodes():
+                        if x.get("k") == "MCall" and (x.get("obj") is None or strip(x["obj"]).get("k") == "This"):
+                            h = W.resolve(x, g)
+                            if h is not None and h.cls == pc.cls:
+                                todo.append(h)
+                dead = []
+                for fl in flags:
+                    reads = 0
+                    for g in cls_fns:
+                        lhs_ids = {id(strip(x["lhs"])) for x in g.nodes() if x.get("k") == "Assign"}
+                        reads += sum(1 for x in g.nodes() if x.get("k") == "Member" and x.get("n") == fl and is_this_field(x) and id(x) not in lhs_ids)
+                    if reads == 0:
+                        dead.append(fl)
+                sus = suspects(W, ec, None, {"@" + m for m in mem}, anywhere=True)
+                if dead:
+                    probs.append("close() never rejects on %s (%s is set in markup() but never read by close() or the member functions it calls): an element without its <%s> block is accepted" % (sorted(mem), sorted(dead), tag))
+                elif sus or other:
+                    unk.append("close() has no visible rejection on %s, but %s may perform it" % (sorted(mem), sus or other))
+                else:
+                    probs.append("close() never rejects on %s: an element without its <%s> block is accepted" % (sorted(mem), tag))
         f0 = insts[0].m["close"]
+        if unk and not probs:
+            undecided(ck, "E7.children-required", key, "; ".join(sorted(set(unk))))
+            continue
         ck.ob("E7.children-required", key, not probs, "; ".join(sorted(set(probs))) or "recorded in markup(), demanded in close() (%d instantiation(s))" % len(insts), f0.file, f0.line)
 
 
@@ -3665,6 +4202,14 @@ def loop_header(n):
     i0 = strip(v.get("init"))
     if i0 is None or i0.get("k") != "Int":
         return None
+    if c.get("k") == "Bin" and c["op"] == "!=" and i0["v"] == "0":
+        # for(i = 0; i != n; ++i) with an unsigned/size bound counts like i < n
+        inc = strip(n.get("inc"))
+        for x, y in ((c["lhs"], c["rhs"]), (c["rhs"], c["lhs"])):
+            if strip(x).get("k") == "Ref" and strip(x)["n"] == v["n"] and inc is not None and inc.get("k") == "Un" and inc.get("op") == "++" \
+               and v["n"] not in vars_of(y):
+                return v["n"], 0, y, False
+        return None
     if c.get("k") != "Bin" or c["op"] not in ("<", "<=") or strip(c["lhs"]).get("k") != "Ref" or strip(c["lhs"])["n"] != v["n"]:
         return None
     return v["n"], int(i0["v"]), c["rhs"], c["op"] == "<="
@@ -3677,8 +4222,9 @@ def rule_loop_range(ck, W, pcs, facts):
     for pc in pcs:
         cfs = cfs_all.get(pc.cls, [])
         table = class_size_table(cfs, all_parser_fns)
-        for mname in PARSER_METHODS:
-            f = pc.m[mname]
+        for f in sorted(cfs, key=lambda g: g.full):
+            if f.cfg is None or f.d.get("ctor") or f.d.get("dtor"):
+                continue
             e = None
             for loop in f.nodes():
                 if loop.get("k") != "For":
@@ -3723,6 +4269,9 @@ def rule_loop_range(ck, W, pcs, facts):
                     except Unknown as ex:
                         ck.incomplete("E2.loop-range", "%s: cannot evaluate `%s` (%s)" % (key, render(x)[:50], ex))
                         continue
+                    if wit is not None and V not in table:
+                        rec.setdefault("unk", []).append("`%s` not provably inside %s (its size is not known from a constant resize())" % (render(x)[:40], V))
+                        continue
                     if wit is not None:
                         rec["probs"].append("[%s] `%s` in the loop `%s %s %s` can leave the container: %s" % (
                             first_targ(pc.cls) or "", render(x)[:40], iv, "<=" if incl else "<", render(bnode)[:40], fmt_witness(wit)))
@@ -3738,7 +4287,10 @@ def rule_loop_range(ck, W, pcs, facts):
                         except Unknown as ex:
                             ck.incomplete("E2.loop-range", "%s: cannot evaluate the loop bound `%s` (%s)" % (key, render(bnode)[:50], ex))
                             continue
-                        if wit2 is not None:
+                        if wit2 is not None and V not in table:
+                            rec.setdefault("unk", []).append("the loop tests `%s` but is bounded by `%s`; the size of %s is not known from a constant resize()" % (
+                                render(x)[:40], render(bnode)[:40], V))
+                        elif wit2 is not None:
                             other = norm(bnode)
                             known = V in table
                             rec["probs"].append("[%s] the loop tests every `%s` but runs only to `%s`%s: entry %d of %s is never tested, a missing block of that dimension is accepted" % (
@@ -3746,6 +4298,9 @@ def rule_loop_range(ck, W, pcs, facts):
                                 (" = %d while %s has %d entries" % (wit2[2], V, wit2[1] + 1)) if known else " (nothing establishes that this equals %s)" % size_s,
                                 wit2[1], V))
     for key, rec in sorted(seen.items()):
+        if rec.get("unk") and not rec["probs"]:
+            undecided(ck, "E2.loop-range", key, "; ".join(sorted(set(rec["unk"]))))
+            continue
         ck.ob("E2.loop-range", key, not rec["probs"],
               "; ".join(sorted(set(rec["probs"]))[:3]) or "index inside the container; tested containers are covered completely (%d loop instance(s))" % rec["n"],
               rec["fn"].file, rec["line"])
